@@ -245,6 +245,10 @@ pub struct ScriptedLoader<'w> {
   pub native_ensure_cached: bool,
   /// serve data: urls
   pub data_urls: bool,
+  /// `cache_info_enabled()`; `get_cache_info` knows a resource once a load of it has *completed* with content
+  /// (the future was polled to its end, as with a loader that downloads while polled)
+  pub cache_info: bool,
+  pub downloaded: std::rc::Rc<RefCell<std::collections::HashSet<String>>>,
 }
 
 impl<'w> ScriptedLoader<'w> {
@@ -262,6 +266,8 @@ impl<'w> ScriptedLoader<'w> {
       sched: None,
       native_ensure_cached: true,
       data_urls: true,
+      cache_info: false,
+      downloaded: Default::default(),
     }
   }
 
@@ -426,9 +432,37 @@ impl Loader for ScriptedLoader<'_> {
     self.max_redirects
   }
 
+  fn cache_info_enabled(&self) -> bool {
+    self.cache_info
+  }
+
+  fn get_cache_info(&self, specifier: &ModuleSpecifier) -> Option<deno_graph::source::CacheInfo> {
+    if !self.cache_info {
+      return None;
+    }
+    let s = specifier.as_str();
+    if self.downloaded.borrow().contains(s) {
+      Some(deno_graph::source::CacheInfo {
+        local: Some(std::path::PathBuf::from(format!("/cache/{:016x}", crate::common::hash64(&s)))),
+      })
+    } else {
+      None
+    }
+  }
+
   fn load(&self, specifier: &ModuleSpecifier, options: LoadOptions) -> LoadFuture {
     let (result, desc) = self.answer(specifier, &options, false);
     self.record(specifier, &options, false, desc);
+    if self.cache_info && self.sched.is_none() {
+      // the download "happens" when the future is polled to completion
+      let downloaded = self.downloaded.clone();
+      return Box::pin(async move {
+        if let Ok(Some(LoadResponse::Module { specifier, .. } | LoadResponse::External { specifier })) = &result {
+          downloaded.borrow_mut().insert(specifier.to_string());
+        }
+        result
+      });
+    }
     match &self.sched {
       Some(s) => Box::pin(s.gate(
         format!("load {} {}", options.cache_setting.as_js_str(), specifier),
@@ -446,6 +480,22 @@ impl Loader for ScriptedLoader<'_> {
     let (result, desc) =
       self.answer(specifier, &options, self.native_ensure_cached);
     self.record(specifier, &options, true, desc);
+    if self.cache_info && self.sched.is_none() {
+      let downloaded = self.downloaded.clone();
+      let result = result.map(|v| {
+        v.map(|r| match r {
+          LoadResponse::Redirect { specifier } => CacheResponse::Redirect { specifier },
+          _ => CacheResponse::Cached,
+        })
+      });
+      let spec = specifier.to_string();
+      return Box::pin(async move {
+        if let Ok(Some(CacheResponse::Cached)) = &result {
+          downloaded.borrow_mut().insert(spec);
+        }
+        result
+      });
+    }
     let result = result.map(|v| {
       v.map(|r| match r {
         LoadResponse::Redirect { specifier } => CacheResponse::Redirect { specifier },
